@@ -175,6 +175,100 @@ def _decorator_state(p, fi, d):
     return 'transparent'
 
 
+_IMMUTABLE = {'int', 'str', 'bytes', 'bool', 'none', 'float'}
+
+
+def _immutable_value(t):
+    from .. import terms as T
+    if T.tag(t) == 'raise':
+        return True
+    if T.tag(t) == 'tuple':
+        return all(_immutable_value(x) for x in t[1])
+    if T.tag(t) in ('list', 'dict', 'obj', 'closure', 'opaque'):
+        return False
+    ty = T.type_of(t)
+    return ty in _IMMUTABLE
+
+
+def _returns_mutable(fi):
+    """syntactic evidence that a function returns a fresh mutable container / object: its annotation, a returned display
+    or comprehension, or a returned local that was bound to one"""
+    r = fi.node.returns
+    if r is not None:
+        txt = ast.unparse(r)
+        if any(txt.startswith(x) for x in ('List', 'Dict', 'Set', 'list', 'dict', 'set', 'typing.List', 'typing.Dict', 'typing.Set',
+                                           'bytearray', 'Deque', 'deque')):
+            return True
+    made = set()
+    for n in ast.walk(fi.node):
+        if isinstance(n, ast.Assign) and isinstance(n.value, (ast.List, ast.Dict, ast.Set, ast.ListComp, ast.DictComp, ast.SetComp)) or (
+                isinstance(n, ast.Assign) and isinstance(n.value, ast.Call) and isinstance(n.value.func, ast.Name)
+                and n.value.func.id in ('list', 'dict', 'set', 'bytearray', 'deque')):
+            for t in n.targets:
+                if isinstance(t, ast.Name):
+                    made.add(t.id)
+    for n in ast.walk(fi.node):
+        if isinstance(n, ast.Return) and n.value is not None:
+            if isinstance(n.value, (ast.List, ast.Dict, ast.Set, ast.ListComp, ast.DictComp, ast.SetComp)):
+                return True
+            if isinstance(n.value, ast.Name) and n.value.id in made:
+                return True
+    return False
+
+
+def _transparent_memo(p, fi, d):
+    """functools.lru_cache / functools.cache on a function: True when a stored result cannot be told from a fresh one -
+    the function is a module-level function or static method (no receiver whose state could change between calls), every
+    result is an immutable value (shared objects cannot be altered by one caller for the next), and its behaviour does not
+    depend on the *type* of an argument (the cache keys by equality: 1, 1.0 and True share an entry).  False when a
+    result is a mutable object.  None when undecided."""
+    from .. import terms as T
+    from ..evalr import Evaluator
+    from .common import S, distinct_leaves
+    base = d.func if isinstance(d, ast.Call) else d
+    name = ast.unparse(base)
+    if name not in ('lru_cache', 'functools.lru_cache', 'cache', 'functools.cache'):
+        return False
+    typed = isinstance(d, ast.Call) and any(k.arg == 'typed' and isinstance(k.value, ast.Constant) and k.value.value is True for k in d.keywords)
+    if fi.cls is not None and fi.kind not in ('staticmethod', 'classmethod'):
+        return False            # keyed by the receiver: instances are kept alive and compared by __eq__/__hash__
+    ann = {a.arg: a.annotation for a in fi.node.args.args}
+    args = []
+    for q in fi.params:
+        a_ = ann.get(q)
+        ty = a_.id if isinstance(a_, ast.Name) and a_.id in ('str', 'bytes', 'int', 'bool') else None
+        if fi.kind == 'classmethod' and q == fi.params[0] and fi.cls is not None:
+            args.append(T.clsref(fi.cls.qual))
+        else:
+            args.append(S('memo_' + q, type=ty) if ty else S('memo_' + q))
+    try:
+        v, _ = Evaluator(p, 'ecdsa').call_function(fi.qual[len(PKG) + 1:], args)
+    except Exception:
+        return None
+    leaves_ = distinct_leaves(v)
+    if any(T.tag(x) in ('list', 'dict', 'obj') for x in leaves_):
+        return False
+    if not all(_immutable_value(x) for x in leaves_):
+        # the evaluator cannot see the value: the source still says what kind of thing is returned
+        if _returns_mutable(fi):
+            return False
+        return None
+    if not typed:
+        # equal keys of different types: harmless unless the function looks at the type of an argument
+        for n in ast.walk(fi.node):
+            if isinstance(n, ast.Call) and isinstance(n.func, ast.Name) and n.func.id in ('isinstance', 'type') and n.args \
+                    and isinstance(n.args[0], ast.Name) and n.args[0].id in fi.params:
+                return None
+        numeric = [q for q in fi.params if not (isinstance(ann.get(q), ast.Name) and ann[q].id in ('str', 'bytes'))
+                   and not (fi.kind == 'classmethod' and q == fi.params[0])]
+        if numeric and any(isinstance(n, (ast.JoinedStr, ast.FormattedValue)) or
+                           (isinstance(n, ast.Call) and isinstance(n.func, ast.Name) and n.func.id in ('str', 'repr', 'format'))
+                           or (isinstance(n, ast.Call) and isinstance(n.func, ast.Attribute) and n.func.attr == 'format')
+                           for n in ast.walk(fi.node)):
+            return None         # str(1) != str(True) != str(1.0): a textual result depends on the key's type
+    return True
+
+
 def check_purity(ctx, pid, consulted):
     p = ctx.p
     with ctx.obligation('%s.PURE' % pid, 'functions consulted by the analysis', None, 'btc_hd_wallet/') as ob:
@@ -210,6 +304,17 @@ def check_purity(ctx, pid, consulted):
                                  'callers get' % (key, txt), '%s:%d' % (fi.module.relpath, d.lineno))
                     continue
                 if 'cache' in txt.lower() or 'memo' in txt.lower():
+                    tr = _transparent_memo(p, fi, d)
+                    if tr is True:
+                        ob.evaluations += 1
+                        ob.note('%s is memoised (@%s); every result is an immutable value computed from the arguments alone, so the '
+                                'stored result is indistinguishable from a fresh one' % (key, txt))
+                        continue
+                    if tr is None:
+                        ob.undecided('%s is memoised (@%s); whether a stored result can differ from a fresh one (type-dependent '
+                                     'behaviour behind equal keys, or results of unknown mutability) is not decided' % (key, txt),
+                                     '%s:%d' % (fi.module.relpath, d.lineno))
+                        continue
                     ob.require(False, '%s is memoised (@%s): its result for given arguments is whatever an earlier call stored - '
                                'a fresh/independent result is no longer computed, objects are shared between callers' % (key, txt),
                                '%s:%d' % (fi.module.relpath, d.lineno))
